@@ -312,6 +312,9 @@ def gen_descriptor(seed, profile="general") -> dict:
             if ps and all(p.get("weight") == 0 for p in ps):
                 ps[0]["weight"] = 1
     start = rng.choice([names_abs[0]] * 3 + [p["name"] for p in prods if p["fields"]][:1])
+    for p in prods:  # a start symbol that is itself a zero-weight production is not a meaningful declaration
+        if p["name"] == start and p.get("weight") == 0:
+            p["weight"] = 1
     desc = {"name": f"{profile}{seed}", "abstracts": abstracts, "prods": prods, "start": start, "expansion": False}
     if rng.random() < 0.3:  # an unreachable class
         desc["abstracts"].append({"name": "AU", "parent": None, "style": "abc"})
